@@ -746,6 +746,32 @@ static void run_op(const std::vector<std::string> &w, const std::string &, out &
         }
         o.tag(tu ? "macros-C-O2" : "macros-C++-O1");
     }
+    else if (op == "xsplice_same")
+    {
+        // two list heads in ONE ring spliced into each other (theorem splice_same_ring): L holds 1 2 3, the head node of O is
+        // moved in front of item m (m = 0: in front of L's head, i.e. at the tail), then L takes everything from O.
+        // Prose: L ends up with the nodes that followed O's head, then those that followed L's head up to O; O is empty.
+        int m = A(1);
+        XList *L = new XList(), *O = new XList();
+        XItem *it[3];
+        for (int i = 0; i < 3; i++) { it[i] = new XItem(); it[i]->key = i + 1; L->move_back(*it[i]); }
+        xhead_of(O)->move_prev_than(m == 0 ? xhead_of(L) : &it[m - 1]->lnk);
+        L->unlink_and_move_all_nodes_from_other(std::move(*O));
+        std::vector<int> fw, bw, want; int guard = 0;
+        for (auto i = L->begin(); i != L->end() && guard++ < 8; ++i) fw.push_back(i->key);
+        guard = 0;
+        for (auto i = L->rbegin(); i != L->rend() && guard++ < 8; ++i) bw.push_back(i->key);
+        bool ok = L->is_correct() && O->is_correct();
+        val = ids(fw) + " " + ids(bw) + " " + (O->empty() ? "1" : "0") + " " + std::to_string(L->size()) + " " + (ok ? "1" : "0");
+        for (int k = (m == 0 ? 1 : m); k <= 3; k++) want.push_back(k);
+        for (int k = 1; k < m; k++) want.push_back(k);
+        std::vector<int> rwant(want.rbegin(), want.rend());
+        if (fw != want || bw != rwant) o.fail("splice of two heads of one ring: destination = " + ids(fw) + " (backward " + ids(bw) + "), expected " + ids(want));
+        if (!O->empty() || L->size() != 3 || !ok) o.fail("splice of two heads of one ring: source not empty / size / is_correct wrong");
+        for (auto *p : it) delete p;
+        delete L; delete O;
+        o.tag("splice-same-ring");
+    }
     else if (op == "xcorrect_poke")
     {
         // igris::dlist::is_correct() on a hand-corrupted ring (the C++ node's links are public fields): it must RETURN
@@ -1917,6 +1943,7 @@ static void gen_round3(rng &r, bool th)
     auto S = [](long v) { return std::to_string(v); };
     emit("reset c 2"); emit("widths"); emit("premain");
     for (int m = 0; m < 5; m++) emit("xcorrect_poke " + std::to_string(m));
+    for (int m = 0; m < 4; m++) emit("xsplice_same " + std::to_string(m));
     for (int i = 0; i < 4; i++) { emit("mmac 0 " + S(i)); emit("mmac 1 " + S(i)); }
     emit("premain");
     // the closed-form ring of the model against the ring the code builds, small enough to be dumped
